@@ -257,7 +257,7 @@ def expand_alias(func, cfg_node, expr_src, depth=2):
     if len(defs) != 1 or defs[0].kind != 'stmt' or not isinstance(defs[0].ast, ast.Assign) or len(defs[0].ast.targets) != 1:
         return expr_src
     v = defs[0].ast.value
-    if dotted(v) is None:
+    if dotted(v) is None and not (isinstance(v, ast.Subscript) and dotted(v.value) is not None):
         return expr_src
     new = src(v) + ('.' + rest if rest else '')
     return expand_alias(func, defs[0], new, depth - 1)
